@@ -194,6 +194,9 @@ def _sign_of(e, guards, _memo):
             return a if a == b else (NONNEG if {a, b} <= {POS, NONNEG} else ANY)
         if last == "__component__":
             return ANY
+        if last == "where" and len(e.args) == 3:
+            a, b = sign_of(e.args[1], guards), sign_of(e.args[2], guards)
+            return a if a == b else (NONNEG if {a, b} <= {POS, NONNEG} else ANY)
         if last in POS_FUNCS:
             return POS
         if last in NONNEG_FUNCS:
